@@ -1,7 +1,7 @@
 """C18 — client bookkeeping returns to empty (effect summaries + lifecycle ledger)."""
 import re
 
-from .common import (fkey, where, short, arg_is_local, follow_value, block_line, CORE)
+from .common import (fkey, where, short, arg_is_local, follow_value, block_line, CORE, err_return_blocks)
 from ..facts import op_place, op_const, AnchorLost, is_test_body
 from .. import flow
 
@@ -604,13 +604,41 @@ BORROWED = [_borrowed("c03", "r4_completion_consumes"), _borrowed("c05", "r6_ref
 
 
 
+def r11_reply_for_no_pending_call_is_fatal(ctx):
+    """a reply object that belongs to no pending call or subscribe (request_status says Subscription or Invalid) ends the
+    connection - whatever its id or payload. The teardown is what releases the bookkeeping of the calls such a reply was
+    the server's final word on: a server that refuses a batch as a whole answers with one `id: null` error, and a client
+    that merely logs it keeps the batch's entry (and its id range, which a later array reply is then matched against)."""
+    F, R = ctx.F, ctx.R
+    n = 0
+    for b in F.real_bodies():
+        if b.crate != CORE or is_test_body(b) or not re.match(r"^jsonrpsee_core::client::async_client::", b.path):
+            continue
+        for c in b.calls_to(r"RequestManager::request_status$"):
+            adt = F.adt("jsonrpsee_core::client::async_client::manager::RequestStatus")
+            if adt is None:
+                raise AnchorLost("RequestStatus")
+            idx = {v["n"]: str(i) for i, v in enumerate(adt["variants"])}
+            errs = err_return_blocks(b)
+            for sb, arms, other in flow.switch_on(b, c.dest["l"]):
+                for name in ("Subscription", "Invalid"):
+                    t = arms.get(idx.get(name), other)
+                    if t is None:
+                        continue
+                    n += 1
+                    R.fn(b)
+                    ok = t in errs or flow.all_paths_pass(b, t, errs) and not (b.blocks[t]["term"] or {}).get("t") == "return"
+                    R.check(ok, "C18.R11", "%s:%s-is-fatal" % (fkey(b), name), "a reply whose id is %s ends the connection on every path" % ("an active subscription's" if name == "Subscription" else "unknown"), "%s: a reply for which request_status says `%s` can be ignored (a path returns Ok): the connection, and with it the entries such a reply was the final answer to (a batch refused as a whole is answered by one `id: null` error), stays" % (short(b.path), name), "%s:%d" % (b.file, block_line(b, t)))
+    R.floor("C18.R11", n, 2, "arms of the reply classification that must be fatal")
+
+
 def rkeys_manager_keys_not_derived(ctx):
     """ids are matched exactly"""
     from .common import manager_keys_not_derived
     manager_keys_not_derived(ctx, "C18.KEYS")
 
 
-RULES = [r10_explicit_unsubscribe_is_not_best_effort, r9_one_ordered_queue_into_the_send_task, r7_failed_write_ends_the_task, r8_handoff_queue_is_lossless, r1_effect_summaries, r2_ledger, r3_notification_arms, r4_lost_drop_is_recovered, r5_no_unaccounted_success_path, r6_no_state_outside_the_manager, rarr_every_element, rkeys_manager_keys_not_derived] + BORROWED
+RULES = [r10_explicit_unsubscribe_is_not_best_effort, r9_one_ordered_queue_into_the_send_task, r7_failed_write_ends_the_task, r8_handoff_queue_is_lossless, r1_effect_summaries, r2_ledger, r3_notification_arms, r4_lost_drop_is_recovered, r5_no_unaccounted_success_path, r6_no_state_outside_the_manager, rarr_every_element, rkeys_manager_keys_not_derived, r11_reply_for_no_pending_call_is_fatal] + BORROWED
 
 LEVEL_TEXT = (
     "A ledger over the client's four private tables decided from the type-checked program: per-method effect summaries "
